@@ -177,10 +177,14 @@ struct Scenario {
     /// after all ticks: index lookup target / time lookup (message no)
     lookup: Option<(bool, usize)>,
     sorted: bool,
+    /// the file is opened with collect = one_pass_streams, the stream/query is created one_pass and the session resumed
+    one_pass: bool,
+    /// an idle server round (T 0) after every arrival tick
+    gaps: bool,
 }
 fn scen_json(s: &Scenario) -> Value {
     json!({"family": "server", "fset": s.fset, "window": s.window, "is_stream": s.is_stream, "binary": s.binary, "ticks": s.ticks,
-        "change": s.change.map(|(k, (a, b))| json!([k, a, b])), "search": s.search.map(|(a, b, c)| json!([a, b, c])), "lookup": s.lookup.map(|(a, b)| json!([a, b])), "sorted": s.sorted})
+        "change": s.change.map(|(k, (a, b))| json!([k, a, b])), "search": s.search.map(|(a, b, c)| json!([a, b, c])), "lookup": s.lookup.map(|(a, b)| json!([a, b])), "sorted": s.sorted, "one_pass": s.one_pass, "gaps": s.gaps})
 }
 fn scen_from_json(v: &Value) -> Scenario {
     let u = |x: &Value| x.as_u64().unwrap() as usize;
@@ -194,6 +198,8 @@ fn scen_from_json(v: &Value) -> Scenario {
         search: v["search"].as_array().map(|a| (u(&a[0]), u(&a[1]), u(&a[2]))),
         lookup: v["lookup"].as_array().map(|a| (a[0].as_bool().unwrap(), u(&a[1]))),
         sorted: v["sorted"].as_bool().unwrap_or(false),
+        one_pass: v["one_pass"].as_bool().unwrap_or(false),
+        gaps: v["gaps"].as_bool().unwrap_or(false),
     }
 }
 
@@ -282,11 +288,18 @@ fn run_scenario(d: &mut Driver, file: &str, log: &[LogMsg], s: &Scenario) -> Res
         Ok(r)
     };
     d.step("RESET", 90)?;
-    let open = if s.sorted { format!(r#"C open {{"files":["{file}"],"sort":true}}"#) } else { format!(r#"C open {{"files":["{file}"]}}"#) };
+    let open = if s.one_pass {
+        format!(r#"C open {{"files":["{file}"],"collect":"one_pass_streams"}}"#)
+    } else if s.sorted {
+        format!(r#"C open {{"files":["{file}"],"sort":true}}"#)
+    } else {
+        format!(r#"C open {{"files":["{file}"]}}"#)
+    };
     step(d, &open, &mut viol)?;
     let (ws, we) = WINDOWS[s.window];
     let cmd = if s.is_stream { "stream" } else { "query" };
-    let r = step(d, &format!(r#"C {cmd} {{"window":[{ws},{we}],"binary":{},"filters":{}}}"#, s.binary, fs.json), &mut viol)?;
+    let op = if s.one_pass { r#""one_pass":true,"# } else { "" };
+    let r = step(d, &format!(r#"C {cmd} {{{op}"window":[{ws},{we}],"binary":{},"filters":{}}}"#, s.binary, fs.json), &mut viol)?;
     let reply = r["frames"][0]["t"].as_str().unwrap_or("").to_string();
     if !reply.starts_with("ok:") {
         viol.push(("stream_rejected".into(), "".into(), reply));
@@ -314,7 +327,20 @@ fn run_scenario(d: &mut Driver, file: &str, log: &[LogMsg], s: &Scenario) -> Res
             }
         }
     };
-    let mut ticks: Vec<String> = s.ticks.iter().map(|k| format!("T {k}")).collect();
+    if s.one_pass {
+        let r = step(d, "C resume", &mut viol)?;
+        if !r["frames"][0]["t"].as_str().unwrap_or("").starts_with("ok:") {
+            viol.push(("resume_rejected".into(), "".into(), r["frames"].to_string()));
+            return Ok(viol);
+        }
+    }
+    let mut ticks: Vec<String> = vec![];
+    for k in &s.ticks {
+        ticks.push(format!("T {k}"));
+        if s.gaps {
+            ticks.push("T 0".into());
+        }
+    }
     ticks.push("T inf".into());
     ticks.push("T 0".into());
     ticks.push("T 0".into());
@@ -449,7 +475,23 @@ fn scenarios(tier: Tier) -> Vec<Scenario> {
                         if !thorough && ((binary && c.len() > 3) || (!binary && c.len() != 1 && c.len() != NLOG)) {
                             continue;
                         }
-                        v1.push(Scenario { fset, window, is_stream, binary, ticks: c.clone(), change: None, search: None, lookup: None, sorted: false });
+                        v1.push(Scenario { fset, window, is_stream, binary, ticks: c.clone(), change: None, search: None, lookup: None, sorted: false, one_pass: false, gaps: false });
+                    }
+                }
+            }
+        }
+    }
+    // (1b) one-pass sessions (messages are dropped after delivery): stream and query, with an idle server round after
+    // every arrival tick
+    for fset in 0..nf {
+        for window in 0..WINDOWS.len() {
+            for is_stream in [true, false] {
+                for c in comps.iter().filter(|c| thorough || c.len() <= 3) {
+                    for gaps in [false, true] {
+                        if !thorough && !gaps && c.len() > 1 {
+                            continue;
+                        }
+                        v.push(Scenario { fset, window, is_stream, binary: true, ticks: c.clone(), change: None, search: None, lookup: None, sorted: false, one_pass: true, gaps });
                     }
                 }
             }
@@ -462,7 +504,7 @@ fn scenarios(tier: Tier) -> Vec<Scenario> {
                 for c in comps.iter().filter(|c| thorough || c.len() <= 2) {
                     for k in 1..=c.len() + 1 {
                         for nw in [(0usize, 2usize), (1, 4), (3, 20)] {
-                            v.push(Scenario { fset, window, is_stream, binary: true, ticks: c.clone(), change: Some((k, nw)), search: None, lookup: None, sorted: false });
+                            v.push(Scenario { fset, window, is_stream, binary: true, ticks: c.clone(), change: Some((k, nw)), search: None, lookup: None, sorted: false, one_pass: false, gaps: false });
                         }
                     }
                 }
@@ -474,7 +516,7 @@ fn scenarios(tier: Tier) -> Vec<Scenario> {
         for gset in 0..nf {
             for page in [1usize, 2, NLOG] {
                 for start in 0..=2 {
-                    v.push(Scenario { fset, window: 4, is_stream: true, binary: true, ticks: vec![NLOG], change: None, search: Some((page, start, gset)), lookup: None, sorted: false });
+                    v.push(Scenario { fset, window: 4, is_stream: true, binary: true, ticks: vec![NLOG], change: None, search: Some((page, start, gset)), lookup: None, sorted: false, one_pass: false, gaps: false });
                 }
             }
         }
@@ -484,7 +526,7 @@ fn scenarios(tier: Tier) -> Vec<Scenario> {
         for target in 0..NLOG {
             for by_index in [true, false] {
                 for sorted in [false, true] {
-                    v.push(Scenario { fset, window: 4, is_stream: true, binary: true, ticks: vec![NLOG], change: None, search: None, lookup: Some((by_index, target)), sorted });
+                    v.push(Scenario { fset, window: 4, is_stream: true, binary: true, ticks: vec![NLOG], change: None, search: None, lookup: Some((by_index, target)), sorted, one_pass: false, gaps: false });
                 }
             }
         }
@@ -498,7 +540,7 @@ impl Prop for C16 {
         Meta {
             id: "C16",
             level: "model_checking",
-            rule: "(A) library: for every log of N <= 6 (thorough 8) messages with every match pattern (2^N) x stream/query x window end 0..N+1 x max_chunk_size {1,2,3,inf} x every composition of N into arrival batches (x one window extension after every tick for queries) the real process_stream_new_msgs is called the way the server loop calls it; after every tick filtered_msgs must be strictly increasing and equal the matching positions below the progress marker (queries: the first 'window end' of them, marker never beyond an uncollected match), and complete after the final batch plus idle ticks. (B) server, through the cfg(adlt_verif) driver on the real handlers: 7 filter sets (incl. one with two event filters) x 5 windows x stream/query x binary/text x every composition of the 6-message log into arrival ticks; one window change after every tick x 3 new windows; search paging (7 stream filters x 7 search filters x page sizes {1,2,N} x start 0..2, following next_search_idx); index and time lookups for every message, sorted and unsorted. Oracle: frames for the announced id are exactly positions [start,end) of the filtered log with the file's index/times/ids/counters/payload text, none for unannounced or superseded ids, end-of-query marker last, new id after a window change gets exactly the new window, union of search pages = matching stream positions without duplicates, lookups answered ok: return the first stream position not before the request.".into(),
+            rule: "(A) library: for every log of N <= 6 (thorough 8) messages with every match pattern (2^N) x stream/query x window end 0..N+1 x max_chunk_size {1,2,3,inf} x every composition of N into arrival batches (x one window extension after every tick for queries) the real process_stream_new_msgs is called the way the server loop calls it; after every tick filtered_msgs must be strictly increasing and equal the matching positions below the progress marker (queries: the first 'window end' of them, marker never beyond an uncollected match), and complete after the final batch plus idle ticks. (B) server, through the cfg(adlt_verif) driver on the real handlers: 7 filter sets (incl. one with two event filters) x 5 windows x stream/query x binary/text x every composition of the 6-message log into arrival ticks; the same for one-pass sessions (collect = one_pass_streams, resume) with an idle server round after every tick; one window change after every tick x 3 new windows; search paging (7 stream filters x 7 search filters x page sizes {1,2,N} x start 0..2, following next_search_idx); index and time lookups for every message, sorted and unsorted. Oracle: frames for the announced id are exactly positions [start,end) of the filtered log with the file's index/times/ids/counters/payload text, none for unannounced or superseded ids, end-of-query marker last, new id after a window change gets exactly the new window, union of search pages = matching stream positions without duplicates, lookups answered ok: return the first stream position not before the request.".into(),
             assumptions: vec!["server level uses one generated 6-message log (two ECUs, one lifecycle each)".into(), "message-arrival batching is modelled by explicit ticks of the driver (receive budget)".into()],
             budget_s: (150, 1500),
             workers: 1,
